@@ -515,7 +515,7 @@ type c09CKKSCtx struct {
 	sk     *rlwe.SecretKey
 	pk     *rlwe.PublicKey
 	evk    *rlwe.MemEvaluationKeySet
-	lts    [4]cklt.LinearTransformation // without and with baby-step giant-step; then the main diagonal alone, both ways
+	lts    [5]cklt.LinearTransformation // without and with baby-step giant-step; then the main diagonal alone, both ways; then baby-step giant-step without any diagonal in the first giant step
 }
 
 func c09CKKS(ctx *core.RunCtx) *c09Scheme {
@@ -545,13 +545,22 @@ func c09CKKS(ctx *core.RunCtx) *c09Scheme {
 					diags[d][j] = complex(float64((j+d+7)%5)/8, float64((j*3+d+5)%3)/16)
 				}
 			}
-			var lts [4]cklt.LinearTransformation
+			var lts [5]cklt.LinearTransformation
 			main := cklt.Diagonals[complex128]{0: diags[0]}
-			for i, bsgs := range []int{-1, 1, -1, 1} {
+			// diagonals in the upper half only: with baby steps and giant steps no index falls into the first
+			// giant step
+			far := make(cklt.Diagonals[complex128])
+			for k, d := range []int{slots / 2, slots/2 + 1, slots - 1} {
+				far[d] = diags[[]int{-2, 1, 3}[k]]
+			}
+			for i, bsgs := range []int{-1, 1, -1, 1, 1} {
 				dd := diags
 				if i >= 2 {
 					// a slot-wise multiplication expressed as a transformation: only the main diagonal
 					dd = main
+				}
+				if i == 4 {
+					dd = far
 				}
 				ltp := cklt.Parameters{DiagonalsIndexList: dd.DiagonalsIndexList(), LevelQ: p.MaxLevel(), LevelP: p.MaxLevelP(), Scale: p.DefaultScale(),
 					LogDimensions: p.LogMaxDimensions(), LogBabyStepGiantStepRatio: bsgs}
@@ -745,7 +754,7 @@ func c09CKKS(ctx *core.RunCtx) *c09Scheme {
 			c09Aux = h
 			return nil
 		}},
-		{name: "lintrans.Evaluate", op1: []int{vNone}, ks: []int{0, 1, 2, 3}, needDeg1: true, deg: degOne, call: func(e any, a *rlwe.Ciphertext, b any, k int, o *rlwe.Ciphertext) error {
+		{name: "lintrans.Evaluate", op1: []int{vNone}, ks: []int{0, 1, 2, 3, 4}, needDeg1: true, deg: degOne, call: func(e any, a *rlwe.Ciphertext, b any, k int, o *rlwe.Ciphertext) error {
 			return e.(*c09Sys).lt.Evaluate(a, cc.lts[k], o)
 		}},
 		{name: "lintrans.EvaluateMany", op1: []int{vNone}, ks: []int{0, 1, 2, 3}, needDeg1: true, deg: degOne, call: func(e any, a *rlwe.Ciphertext, b any, k int, o *rlwe.Ciphertext) error {
